@@ -190,6 +190,8 @@ def main(argv=None):
         for res, meta in pool.imap_unordered(_task, work, chunksize=1):
             results += res
             metas.append(meta)
+            if args.v:
+                print(f"  done {meta['unit']} {meta['cfg']} {meta['wall']}s", flush=True)
     results.sort(key=lambda r: r["name"])
     signatures = {_base(r["name"]): r for r in results if r["kind"] == "signature"}
     results = [r for r in results if r["kind"] != "signature"]
@@ -229,6 +231,7 @@ def main(argv=None):
     violations, known_hits, undecided = [], [], list(unknown)
     replay_dir = os.path.join(OUT, "replay", pid)
     groups = {}
+    replays_done = {}
     for r in refuted:
         groups.setdefault((r["unit"], json.dumps(r["cfg"], sort_keys=True), _base(r["name"])), []).append(r)
     for (unit, cfgs, base), rs in sorted(groups.items()):
@@ -241,7 +244,13 @@ def main(argv=None):
                 continue
             # the obligation of a recorded finding fails, but not in the recorded way: a new violation
         model, big = small_model(r)
-        rep = dict(error=f"model needs extents {big}; not replayed natively") if big else native_replay(unit, r["cfg"], model)
+        replays_done[(unit, cfgs)] = replays_done.get((unit, cfgs), 0) + 1
+        if big:
+            rep = dict(error=f"model needs extents {big}; not replayed natively")
+        elif replays_done[(unit, cfgs)] > 3 or sum(replays_done.values()) > 40:
+            rep = dict(error="not replayed: other refuted obligations of the same unit configuration were replayed already")
+        else:
+            rep = native_replay(unit, r["cfg"], model)
         confirmed = False
         observed = None
         if "runs" in rep:
@@ -268,7 +277,9 @@ def main(argv=None):
         if r.get("unit"):
             suspects.setdefault((r["unit"], json.dumps(r["cfg"], sort_keys=True)), []).append(r)
     confirmed_names = set()
-    for (unit, cfgs), rs in sorted(suspects.items()):
+    for j, ((unit, cfgs), rs) in enumerate(sorted(suspects.items())):
+        if j >= 8:  # bounded effort: the remaining undecided units are reported as such
+            break
         cfg = rs[0]["cfg"]
         tried = []
         for r in rs:
@@ -342,7 +353,9 @@ def main(argv=None):
         print(f"ERROR {r['name']}: {r['detail'][:1200]}")
     for r in unknown[:20]:
         print(f"UNDECIDED {r['name']}: {r['detail'][:300]}")
-    for base, fn, confirmed in violations:
+    if len(violations) > 25:
+        print(f"({len(violations)} refuted obligations; the first 25 are listed, all have replay files under {os.path.relpath(replay_dir, ROOT)})")
+    for base, fn, confirmed in violations[:25]:
         rel = os.path.relpath(fn, ROOT)
         print(f"VIOLATION property={pid} replay={rel}" + ("" if confirmed else " no-failing-input-found"))
         print(f"   obligation {base}")
